@@ -61,17 +61,19 @@ def run(tier):
     v = Verdict(PROP, tier, "model_checking")
     build_harness()
     pool, rows, states = W.model("c05", 2, 0)
+    rnd = random.Random(SEED)
+    envs = sorted({(tuple(r["c"])) for r in rows})
     if tier != "quick":
-        stride = 16
-        ph = list(range(stride))
-        pool, rows3, st3 = W.model("c05", 3, 0, stride=stride, phases=ph[:4])
-        rows3 = [r for r in rows3 if len(r["w"]) == 3]
+        # every word of <= 2 pieces in 200 environments, plus every 64th three-piece word (the full products do not finish in an hour)
+        keep = set(rnd.sample(envs, min(len(envs), 200)))
+        rows = [r for r in rows if tuple(r["c"]) in keep]
+        stride = 64
+        pool, rows3, st3 = W.model("c05", 3, 0, stride=stride, phases=[SEED % stride])
+        rows3 = [r for r in rows3 if len(r["w"]) == 3 and tuple(r["c"]) in keep]
         rows += rows3
         states += st3
     else:
         # every single-piece and two-piece word; environments thinned deterministically
-        rnd = random.Random(SEED)
-        envs = sorted({(tuple(r["c"])) for r in rows})
         keep = set(rnd.sample(envs, 60))
         rows = [r for r in rows if tuple(r["c"]) in keep]
     P = pool["pool"]
@@ -87,8 +89,8 @@ def run(tier):
         "rule": "words = every sequence of <= %d pieces from the %d-piece pool of MC_WordExp.tla (literals with glob characters, single/double quotes, escapes, $x of five kinds, $@ $* "
                 "quoted and not, array expansions, command and arithmetic substitution, ${v:-w} ${v:+w} with nested words, tilde, four brace forms); environments = IFS in {unset, default, "
                 "space, newline, empty} x directory in {empty, {a ab b .h 'a b'}} x 4 positional lists x 6 values of x%s; each (word, environment) is one evaluation of Expand in TLC, "
-                "one bash run (audit) and one brush run; non-trivial = the argument list is not just the word's own text" % (3 if tier != "quick" else 2, len(P), " (60 environments sampled)" if tier == "quick" else ""),
-        "exhaustive": tier != "quick", "pool": len(P),
+                "one bash run (audit) and one brush run; non-trivial = the argument list is not just the word's own text" % (3 if tier != "quick" else 2, len(P), " (60 environments sampled)" if tier == "quick" else " (200 environments sampled; three-piece words: every 64th)"),
+        "exhaustive": False, "pool": len(P),
         "samples": [{"word": W.render_word([P[i - 1] for i in r0["w"]]), "x": W.text(r0["x"]), "out": [W.text(f) for f in r0["out"]]} for r0 in rows[:: max(1, len(rows) // 3)][:3]],
     }, assumptions=["bash 5.2.15 is the reference; a (word, environment) pair counts only if bash reproduces the model's argument list",
                     "patterns whose meaning POSIX leaves undefined (Glob.WellDefined false) are not judged", "locale C.UTF-8"])
